@@ -356,6 +356,23 @@ func main() {
 		}
 	})
 	shaped = vlib.SeqCount(len(inner), innerLen) * 9
+	// comma lists in which a well-formed item stands before or after an item of any other form (bare text, not a
+	// url() or quoted form): what an earlier item established must not carry over to a later one, in either order
+	bare := []string{"x", "/", ";", "}", "{", "*", ":", "@", "!", ",", "url", "javascript", "\"", ")", " "}
+	vlib.SeqsParallel(bare, innerLen, workers, func(_ int, x string) {
+		for _, good := range []string{"url(/a)", "url(\"/a\")", "url(https://a/b)"} {
+			checkPair("background-image", good+","+x, true)
+			checkPair("background-image", good+", "+x, false)
+			checkPair("background-image", x+","+good, true)
+			checkPair("background-image", good+","+x+","+good, false)
+		}
+		for _, good := range []string{"serif", "\"Times New\""} {
+			checkPair("font-family", good+","+x, true)
+			checkPair("font-family", x+","+good, false)
+			checkPair("font-family", good+", "+x+" ,"+good, false)
+		}
+	})
+	shaped += vlib.SeqCount(len(bare), innerLen) * 21
 	// URLs that a stricter parser than a browser's refuses to parse (a port that is not a number, an unterminated
 	// IPv6 literal, a character that is not allowed in a host name, a broken percent escape, user info with one):
 	// the browser still resolves them with the scheme they begin with, so "could not be parsed" must not read as
